@@ -300,7 +300,6 @@ theorem dup_release {s sb : Sys} {c' : Nat} {a σ : String} (hR : DupReady s sb 
   obtain ⟨s2, e, e1, e2⟩ := releaseNameplate_again (s' := X) (t' := t') hP0 h0 (hXdb.trans hdb)
   obtain ⟨q, _, hsy⟩ := releaseNameplate_spec e
   have hsync2 : s2.Synced := hsy ⟨by rw [hXdb, hXdisk]; exact hs.1, hXu⟩
-  have hcx := CExt.releaseNameplate (OutExt.refl (s := X)) (app := n') (name := n') (side := σ) (t := t')
   have hcx := CExt.releaseNameplate (OutExt.refl (s := X)) (app := a) (name := n') (side := σ) (t := t')
   rw [e] at hcx
   obtain ⟨commits, hout, hc⟩ := hcx
@@ -311,6 +310,190 @@ theorem dup_release {s sb : Sys} {c' : Nat} {a σ : String} (hR : DupReady s sb 
   show s2.out ++ [Event.frame c' .released s2.synced] = _
   rw [(synced_iff s2).2 hsync2, hout, hXout]
   simp
+
+/-! ### the third operation: `open` -/
+
+/-- the frames of an answer `ack, commits, rest` -/
+theorem filter_isFrame_answer {c : Nat} {id : Val} {commits rest : List Event} (hc : ∀ e ∈ commits, IsCommit e)
+    (hr : ∀ e ∈ rest, e.isFrame = true) :
+    (Event.frame c (.ack id) true :: (commits ++ rest)).filter Event.isFrame = .frame c (.ack id) true :: rest := by
+  have h1 : commits.filter Event.isFrame = [] := by
+    rw [List.filter_eq_nil_iff]
+    intro e he
+    obtain ⟨w, rfl⟩ := hc e he
+    simp [Event.isFrame]
+  have h2 : rest.filter Event.isFrame = rest := List.filter_eq_self.2 hr
+  simp [List.filter_cons, Event.isFrame, List.filter_append, h1, h2]
+
+theorem replayFrames_isFrame (d : Chan) (c : Nat) (a m : String) : ∀ e ∈ replayFrames d c a m, e.isFrame = true := by
+  intro e he
+  simp only [replayFrames, List.mem_map] at he
+  obtain ⟨_, _, rfl⟩ := he
+  rfl
+
+theorem replayFrames_to (d : Chan) (c : Nat) (a m : String) :
+    ∀ k f b, Event.frame k f b ∈ replayFrames d c a m → k = c := by
+  intro k f b he
+  simp only [replayFrames, List.mem_map] at he
+  obtain ⟨_, _, e⟩ := he
+  cases e
+  rfl
+
+/-- **the re-sent `open`.**  `s`: a state with nothing uncommitted whose database is the one a
+    successful `open_mailbox(a, m, σ, t)` left (`openDb` of some database, at most two side rows);
+    `sb`: `s` plus the fresh connection `c'` bound to `(a, σ)`.  Then `open m` on `c'` at `t` is answered
+    `ack, commits` and the replay of the stored messages of `(a, m)` — the frames `replayFrames s.db · a m`
+    that the first open got, addressed to `c'`; the channel database is unchanged, nothing is left
+    uncommitted, `c'` is subscribed, no other connection record changes. -/
+theorem dup_open {s sb : Sys} {c' : Nat} {a σ : String} (hR : DupReady s sb c' a σ) (hs : s.Synced)
+    (hf : ∀ y ∈ s.conns, y.id ≠ c') (hP : s.db.PInv) {d0 : Chan} {m : String} {t : Time}
+    (hd : s.db = d0.openDb a m σ t) (hlen : (s.db.mbSidesOf m).length ≤ 2) (id : Val) :
+    ∀ sc, sc = sb.step (.recv c' t id (.open_ (some m))) →
+      sc.db = s.db ∧ sc.Synced ∧ sc.cfg = s.cfg ∧ (∃ y, y.id = c' ∧ sc.conns = s.conns ++ [y]) ∧
+      ∃ commits, (∀ e ∈ commits, IsCommit e) ∧
+        sc.out = .frame c' (.ack id) true :: (commits ++ replayFrames s.db c' a m) := by
+  intro sc hsc
+  have hx := hR.findConn hf
+  have hSb := hR.synced hs
+  have hbox : sb.db.HasBox a m := by rw [hR.db, hd]; exact Chan.openDb_hasBox _ _ _ _ _
+  have hidem : sb.db.openDb a m σ t = s.db := by rw [hR.db, hd]; exact Chan.openDb_idem _ _ _ _ _
+  obtain ⟨_, _, h3⟩ := open_step (s := sb) (by rw [hR.db]; exact hP) hSb hx (mb := m)
+    (by simp [rejectText, needBind, dupConn]) (app := a) rfl t id
+  have hside : (dupConn c' a σ).side.getD "" = σ := rfl
+  rw [hside, hidem] at h3
+  obtain ⟨hout, hdb, hsy, _, hcfg, _, hconns⟩ := h3 (fun hc => hc.2 hbox) (by omega)
+  subst hsc
+  refine ⟨hdb, hsy, hcfg.trans hR.cfg, ⟨_, rfl, ?_⟩, hout⟩
+  rw [hconns, hR.conns]
+  exact map_append_fresh hf _ rfl (fun y => { y with mailboxId := some m, mailbox := some m, listening := true })
+
+/-! ### the third operation: `close` -/
+
+theorem dupConn_close_valid (c' : Nat) (a σ m : String) (mood : Option String) :
+    rejectText (dupConn c' a σ) (.close (some m) mood) = none := by
+  simp [rejectText, needBind, dupConn]
+
+theorem dupConn_closeTarget (c' : Nat) (a σ m : String) : (dupConn c' a σ).closeTarget (some m) = some m := by
+  simp [Conn.closeTarget, Conn.closeName, dupConn]
+
+theorem dupConn_closePre (sb : Sys) (c' : Nat) (a σ m : String) (t : Time) :
+    closePre sb (dupConn c' a σ) a m t = sb.db.openDb a m σ t := by
+  simp [closePre, dupConn]
+
+/-- **the re-sent `close`, the mailbox is gone.**  `s`: a state with nothing uncommitted satisfying
+    the invariants in which no mailbox row has id `m` (the close deleted it) and hence no
+    connection holds a handle on it; `sb`: `s` plus the fresh connection `c'` bound to `(a, σ)`.  Then
+    `close m mood` on `c'` is answered `ack, commits, closed`; the implicit `open_mailbox` creates the
+    mailbox row and a side row and `Mailbox.close` deletes them again within the step: the channel
+    database is unchanged; only the record of `c'` changes.  (With a usage database one usage
+    `mailboxes` row is written: the usage database is not part of the stored channel state.) -/
+theorem dup_close_gone {s sb : Sys} {c' : Nat} {a σ : String} (hR : DupReady s sb c' a σ) (hs : s.Synced)
+    (hf : ∀ y ∈ s.conns, y.id ≠ c') (hP : s.db.PInv) (hN : s.db.NpHasSide) {m : String}
+    (hgone : ¬ s.db.HasId m) (hH : ∀ y ∈ s.conns, y.mailbox ≠ some m) (mood : Option String) (t : Time) (id : Val) :
+    ∀ sc, sc = sb.step (.recv c' t id (.close (some m) mood)) →
+      sc.db = s.db ∧ sc.Synced ∧ sc.cfg = s.cfg ∧ (∃ y, y.id = c' ∧ sc.conns = s.conns ++ [y]) ∧
+      ∃ commits, (∀ e ∈ commits, IsCommit e) ∧
+        sc.out = .frame c' (.ack id) true :: (commits ++ [.frame c' .closed true]) := by
+  intro sc hsc
+  have hx := hR.findConn hf
+  have hSb := hR.synced hs
+  have hnoside : s.db.mbSidesOf m = [] := by
+    simp only [Chan.mbSidesOf, List.filter_eq_nil_iff, decide_eq_true_eq]
+    intro r hr hk
+    obtain ⟨m0, hm0, hi⟩ := hP.msFk r hr
+    exact hgone ⟨m0, hm0, hi.trans hk⟩
+  obtain ⟨_, _, h3⟩ := close_step (s := sb) (by rw [hR.db]; exact hP) (by rw [hR.db]; exact hN) hSb hx
+    (dupConn_close_valid c' a σ m mood) (app := a) rfl (dupConn_closeTarget c' a σ m) t id
+  have hside : (dupConn c' a σ).side.getD "" = σ := rfl
+  rw [dupConn_closePre, hside, hR.db] at h3
+  have hgo : ¬ ((dupConn c' a σ).mailbox = none ∧
+      (sb.db.Clash a m ∨ ((s.db.openDb a m σ t).mbSidesOf m).length > 2)) := by
+    rintro ⟨_, hk | hk⟩
+    · obtain ⟨⟨m0, hm0, hi, _⟩, _⟩ := hk
+      rw [hR.db] at hm0
+      exact hgone ⟨m0, hm0, hi⟩
+    · rw [Chan.openDb_mbSidesOf, hnoside] at hk
+      split at hk <;> simp at hk
+  obtain ⟨hout, hdb, hsy, hcfg, _, _, hdel⟩ := h3 hgo
+  have hno : ¬ (s.db.openDb a m σ t).OtherOpen m σ := by
+    rw [Chan.otherOpen_openDb]
+    rintro ⟨r, hr, hk, _⟩
+    obtain ⟨m0, hm0, hi⟩ := hP.msFk r hr
+    exact hgone ⟨m0, hm0, hi.trans hk⟩
+  obtain ⟨hconns, _⟩ := hdel (Chan.openDb_hasBox _ _ _ _ _) (Chan.openDb_findMbSide_ne_none _ _ _ _ _) hno
+  subst hsc
+  refine ⟨by rw [hdb, Chan.closeDb_openDb_gone hP hgone], hsy, hcfg.trans hR.cfg,
+    ⟨closerUpd (dupConn c' a σ), rfl, ?_⟩, hout⟩
+  rw [hconns, hR.conns]
+  unfold closeConnsDel
+  rw [List.map_append]
+  congr 1
+  · apply Chan.map_eq_self
+    intro y hy
+    rw [if_neg (hf y hy), if_neg]
+    rintro ⟨_, _, hk⟩
+    exact hH y hy hk
+  · simp [dupConn]
+
+/-- **the re-sent `close`, the mailbox survived** (another side still has it open) — findings
+    K-close-touch and K-crowded-rejoin.  `s`: a state with nothing uncommitted satisfying the
+    invariants whose database is in the state a close of `(a, m)` by side `σ` with mood `mood` left
+    (`CloseSurvived`), with AT MOST TWO side rows on `m` (guard of K-crowded-rejoin, see
+    `dup_close_crowded`); `sb`: `s` plus the fresh connection `c'` bound to `(a, σ)`.  Then `close m mood`
+    (same mood) on `c'` at `t` is answered `ack, commits, closed`, only the record of `c'` changes, and
+    the channel database is `touch m t` of the one before: all five tables and the counter are
+    unchanged EXCEPT the column `updated` of the mailbox row `m`, which becomes `t` (K-close-touch). -/
+theorem dup_close_survived {s sb : Sys} {c' : Nat} {a σ : String} (hR : DupReady s sb c' a σ) (hs : s.Synced)
+    (hf : ∀ y ∈ s.conns, y.id ≠ c') (hP : s.db.PInv) (hN : s.db.NpHasSide) {m : String} {mood : Option String}
+    (hSv : s.db.CloseSurvived a m σ mood) (hlen : (s.db.mbSidesOf m).length ≤ 2) (t : Time) (id : Val) :
+    ∀ sc, sc = sb.step (.recv c' t id (.close (some m) mood)) →
+      sc.db = s.db.touch m t ∧ sc.Synced ∧ sc.cfg = s.cfg ∧ (∃ y, y.id = c' ∧ sc.conns = s.conns ++ [y]) ∧
+      ∃ commits, (∀ e ∈ commits, IsCommit e) ∧
+        sc.out = .frame c' (.ack id) true :: (commits ++ [.frame c' .closed true]) := by
+  intro sc hsc
+  have hx := hR.findConn hf
+  have hSb := hR.synced hs
+  obtain ⟨_, _, h3⟩ := close_step (s := sb) (by rw [hR.db]; exact hP) (by rw [hR.db]; exact hN) hSb hx
+    (dupConn_close_valid c' a σ m mood) (app := a) rfl (dupConn_closeTarget c' a σ m) t id
+  have hside : (dupConn c' a σ).side.getD "" = σ := rfl
+  rw [dupConn_closePre, hside, hR.db] at h3
+  have hsides : (s.db.openDb a m σ t).mbSidesOf m = s.db.mbSidesOf m := by
+    rw [Chan.openDb_mbSidesOf]
+    simp [hSv.own]
+  have hgo : ¬ ((dupConn c' a σ).mailbox = none ∧
+      (sb.db.Clash a m ∨ ((s.db.openDb a m σ t).mbSidesOf m).length > 2)) := by
+    rintro ⟨_, hk | hk⟩
+    · exact hk.2 (by rw [hR.db]; exact hSv.box)
+    · rw [hsides] at hk; omega
+  obtain ⟨hout, hdb, hsy, hcfg, _, hsurv, _⟩ := h3 hgo
+  have hoo : (s.db.openDb a m σ t).OtherOpen m σ := (Chan.otherOpen_openDb _ _ _ _ _).2 hSv.other
+  obtain ⟨hconns, _⟩ := hsurv (fun hk => hk.2.2 hoo)
+  subst hsc
+  refine ⟨by rw [hdb, Chan.closeDb_openDb_survived hP.mbIds hSv], hsy, hcfg.trans hR.cfg,
+    ⟨closerUpd (dupConn c' a σ), rfl, ?_⟩, hout⟩
+  rw [hconns, hR.conns]
+  unfold closeConns
+  exact map_append_fresh hf _ rfl closerUpd
+
+/-- **K-crowded-rejoin for the re-sent `close`**: the same situation with MORE than two side rows on
+    `m` (a third side has touched the mailbox): the re-sent close of one of the first two sides is
+    answered `crowded`, not `closed`. -/
+theorem dup_close_crowded {s sb : Sys} {c' : Nat} {a σ : String} (hR : DupReady s sb c' a σ) (hs : s.Synced)
+    (hf : ∀ y ∈ s.conns, y.id ≠ c') (hP : s.db.PInv) (hN : s.db.NpHasSide) {m : String} {mood : Option String}
+    (hSv : s.db.CloseSurvived a m σ mood) (hlen : (s.db.mbSidesOf m).length > 2) (t : Time) (id : Val) :
+    ∃ commits, (∀ e ∈ commits, IsCommit e) ∧
+      (sb.step (.recv c' t id (.close (some m) mood))).out =
+        .frame c' (.ack id) true :: (commits ++ [.frame c' (.error "crowded") true]) := by
+  have hx := hR.findConn hf
+  have hSb := hR.synced hs
+  obtain ⟨_, h2, _⟩ := close_step (s := sb) (by rw [hR.db]; exact hP) (by rw [hR.db]; exact hN) hSb hx
+    (dupConn_close_valid c' a σ m mood) (app := a) rfl (dupConn_closeTarget c' a σ m) t id
+  have hside : (dupConn c' a σ).side.getD "" = σ := rfl
+  rw [dupConn_closePre, hside, hR.db] at h2
+  have hsides : (s.db.openDb a m σ t).mbSidesOf m = s.db.mbSidesOf m := by
+    rw [Chan.openDb_mbSidesOf]
+    simp [hSv.own]
+  exact (h2 rfl (fun hk => hk.2 (by rw [hR.db]; exact hSv.box)) (by rw [hsides]; exact hlen)).1
 
 end Sys
 end Wormhole
